@@ -7,9 +7,11 @@ package main
 import (
 	"encoding/json"
 	"fmt"
+	"go/ast"
 	"os"
 	"os/exec"
 	"path/filepath"
+	"regexp"
 	"sort"
 	"strings"
 	"sync"
@@ -47,6 +49,36 @@ type LemmaJSON struct {
 	Error       string    `json:"error,omitempty"`
 }
 
+var tagRe = regexp.MustCompile(`#(?:assert|post|pre):(C\d\d)/|(?:step|inv|peel)_(C\d\d)_`)
+
+// oblProperty: the property an obligation is labelled with ("" if none).
+func oblProperty(name string) string {
+	m := tagRe.FindStringSubmatch(name)
+	if m == nil {
+		return ""
+	}
+	if m[1] != "" {
+		return m[1]
+	}
+	return m[2]
+}
+
+// lemmaMentions: the lemma's source contains a label "<prop>/...".
+func (P *Program) lemmaMentions(fn *ssa.Function, prop string) bool {
+	syn, ok := fn.Syntax().(*ast.FuncDecl)
+	if !ok || syn == nil {
+		return false
+	}
+	found := false
+	ast.Inspect(syn, func(n ast.Node) bool {
+		if bl, ok := n.(*ast.BasicLit); ok && strings.HasPrefix(bl.Value, "\""+prop+"/") {
+			found = true
+		}
+		return !found
+	})
+	return found
+}
+
 func lemmaFunctions(P *Program, prop string) []*ssa.Function {
 	var out []*ssa.Function
 	var paths []string
@@ -59,8 +91,10 @@ func lemmaFunctions(P *Program, prop string) []*ssa.Function {
 	for _, p := range paths {
 		var names []string
 		for n, m := range P.spkgs[p].Members {
-			if _, ok := m.(*ssa.Function); ok && strings.HasPrefix(n, "lemma_"+prop+"_") {
-				names = append(names, n)
+			if fn, ok := m.(*ssa.Function); ok && strings.HasPrefix(n, "lemma_") {
+				if strings.HasPrefix(n, "lemma_"+prop+"_") || P.lemmaMentions(fn, prop) {
+					names = append(names, n)
+				}
 			}
 		}
 		sort.Strings(names)
@@ -248,8 +282,12 @@ func checkProperty(P *Program, verifDir, prop, tier string, opts VerifyOpts) int
 	}
 	picks := map[string]pick{}
 	for _, lj := range results {
+		primary := strings.HasPrefix(lj.Lemma, "lemma_"+prop+"_")
 		for _, o := range lj.Obligations {
 			if o.Status == "discharged" || o.Bounded != "" {
+				continue
+			}
+			if tag := oblProperty(o.Name); tag != prop && (tag != "" || !primary) {
 				continue
 			}
 			bn := baseName(o.Name)
@@ -322,7 +360,11 @@ func checkProperty(P *Program, verifDir, prop, tier string, opts VerifyOpts) int
 		for _, k := range lj.Kept {
 			inferred[k] = true
 		}
+		primary := strings.HasPrefix(lj.Lemma, "lemma_"+prop+"_")
 		for _, o := range lj.Obligations {
+			if tag := oblProperty(o.Name); tag != prop && (tag != "" || !primary) {
+				continue // belongs to another property
+			}
 			bn := baseName(o.Name)
 			a := aggs[bn]
 			if a == nil {
